@@ -1,0 +1,7 @@
+//! Verification hooks. Only compiled with the cargo feature `verif`; nothing in here is used by the program itself.
+//!
+//! Re-exports of private items, so that an external harness can run them on generated inputs.
+
+pub use crate::bab::{solve as bab_solve, NodeResult, Statistics};
+pub use crate::hungarian::{hungarian_algorithm, EdgeWeight, Matching, Score};
+pub use crate::util::{binom, IterSelections, KSelectionIterator};
